@@ -433,7 +433,9 @@ func (x *Exec) assumeWF(v *Val, guard string) {
 	case KSlice:
 		z := x.sc.iConst(0)
 		x.sc.assume(implies(guard, and(x.sc.iLe(z, v.E[1].S), x.sc.iLe(z, v.E[2].S), x.sc.iLe(v.E[2].S, v.E[3].S), "(>= "+v.E[0].S+" 0)",
-			x.sc.iLe(v.E[1].S, x.sc.iConst(1<<40)), x.sc.iLe(v.E[3].S, x.sc.iConst(1<<40)))))
+			x.sc.iLe(v.E[1].S, x.sc.iConst(1<<40)), x.sc.iLe(v.E[3].S, x.sc.iConst(1<<40)),
+			// a nil slice has no capacity (hence no elements)
+			implies(eq(v.E[0].S, "0"), eq(v.E[3].S, z)))))
 		x.refKnown(v.E[0].S, guard)
 	case KIface:
 		x.sc.assume(implies(guard, "(>= "+v.E[0].S+" 0)"))
